@@ -237,3 +237,12 @@ package linkedhashmap
 //@     invariant ItInv(iterator) && iterator.iterator.list == m.ordering && iterator.table == m.table && fresh(iterator) && fresh(newMap) && Inv(newMap) && fresh(newMap.table) && fresh(newMap.ordering) && newMap != m && N(newMap) <= min(iterator.iterator.index + 1, N(m))
 //@     invariant forall j :: 0 <= j && j <= iterator.iterator.index && j < N(m) ==> Has(newMap, fst(f(K(m)[j], Val(m, K(m)[j]))))
 //@     decreases N(m) - iterator.iterator.index
+
+//@ -- String: starts with the container's name; reads only (C15, C18)
+//@ func Map.String
+//@   requires Inv(m)
+//@   modifies nothing
+//@   ensures [C15 C17 C18] hasPrefix(result, "LinkedHashMap")
+//@   loop 1:
+//@     invariant ItInv(it) && it.iterator.list == m.ordering && it.table == m.table && fresh(it) && hasPrefix(str, "LinkedHashMap")
+//@     decreases N(m) - it.iterator.index
